@@ -50,9 +50,9 @@ CHECKS = {
     'C18': ('proof', 'Verus, Rust side only: every #[pymethods] body of OrderBook / StepEnv / StepEnvNumpy within the extractor grammar is verified against the core contracts (a getter wired to the wrong side, a swapped '
             'argument, a dropped instruction or a changed price is a refuted postcondition); cast_order / cast_trade tuple positions and the Side/Status encodings are full-domain postconditions; off-grid '
             'prices give Err and leave the object unchanged. NOT covered (stated in the evidence): the PyO3 glue (argument extraction, OverflowError, exception raising), the compiled module under CPython, '
-            'JSON interop, the list builders get_orders/get_trades (adapter chains).', 'Verus postconditions on the PyO3 method bodies against the core contracts', PY_NOTE),
+            'JSON interop, the list builders get_orders/get_trades (adapter chains) - for these a BOUNDED stand-in (labelled, not counted) drives the compiled module under CPython with 60 seeded call sequences.', 'Verus postconditions on the PyO3 method bodies against the core contracts', PY_NOTE),
     'C19': ('proof', 'Verus, Rust side only: the four observation-array builders are verified against the documented index table written as a spec sequence (lengths 9 and 45, element k == documented quantity), '
-            'the history getters return bid series first; the market-data dictionary (HashMap/format!/closures) and the two Python data-frame helpers have no contract within reach and are listed as unchecked.',
+            'the history getters return bid series first; the market-data dictionary (HashMap/format!/closures) has no contract within reach: a BOUNDED stand-in (labelled, not counted) checks every key and series, and both arrays, through the compiled module under CPython on 40 seeded simulations; the two Python data-frame helpers (pandas is not installed) are unchecked.',
             'Verus postconditions against the documented layout as a spec sequence', PY_NOTE),
     'C20': ('proof', 'Verus on the REAL macro expansion: for a stated family of 20 shapes (1..8 fields, non-alphabetical names, repeated member types, members that are sets, field attributes incl. cfg, both macros) '
             'the struct is expanded by the working tree\'s derive macro (rustc -Zunpretty=expanded), the generated update body is cut out verbatim and verified: with members of UNINTERPRETED behaviour the set '
